@@ -363,6 +363,13 @@ def run_check(prop, args, seed, t_start):
         for o in vacuous:
             print('CHECKER-ERROR property=%s vacuous: %s is unsatisfiable' % (prop, o.oid))
         rc = 3
+    # frame obligations decided on the AST: a failure means "this function now writes through an object it did not allocate".  Whether that
+    # breaks the property is decided by a concrete input: with a failing input from the bounded layer the violation is reported (below, with
+    # that input); without one the verdict is UNDECIDED (a transparent cache would be such a write), never a violation by itself.
+    frame_bad = [g for g in syn_bad if '#frame[' in g[0]]
+    syn_bad = [g for g in syn_bad if '#frame[' not in g[0]]
+    for g in frame_bad:
+        undecided.append({'obligation': g[0], 'reason': 'frame obligation fails (%s); no verdict without a failing input' % g[2]})
     if ground_bad or syn_bad:
         for g in ground_bad + syn_bad:
             path = os.path.join('replays', prop, safe_name(g[0]) + '.json')
